@@ -27,7 +27,7 @@ EXPLANATION = (
 )
 
 MANIFEST = {
-    "technique": "static analysis: flow-sensitive abstract interpretation of header key updates to polynomials over FITS keyword atoms, compared with the reflection algebra; determinant form and orientation; argument provenance (height) by parameter binding; shared-state check; representation consistency of Image under flip_parity; who-may-delete: only the CDELT/PC keywords leave the header",
+    "technique": "static analysis: flow-sensitive abstract interpretation of header key updates to polynomials over FITS keyword atoms, compared with the reflection algebra; determinant form and orientation; argument provenance (height) by parameter binding; shared-state check; representation consistency of Image under flip_parity; who-may-delete: only the CDELT/PC keywords leave the header; accessor identity of asarray() (shared with C15)",
     "text": "Decides the exact algebra of the WCS reflection, the parity-sign determinant and the ensure/flip control logic for Image and ImageDescription; with the linear-WCS model this is the claimed sky invariance for all linear WCS.",
     "note": "Trusted: astropy WCS.to_header emits CDELT/PC (+ CRPIX) for a linear celestial WCS and WCS(header) reads CD; FITS 1-based pixel convention. Not decided: non-linear distortion terms (outside the property).",
 }
